@@ -22,11 +22,12 @@
       validate fail alike; what evaluates also validates — labrea's Cached.validate answers
       "valid" on a hit without validating);
     - cached expressions are in [frag]; around and between cache sites every constructor except
-      Map, Template nodes and AllOptions is allowed ([scoh]). *)
+      Map and AllOptions is allowed ([scoh]); dictionaries use no name of the range the model
+      reserves for Template parameters ([no_par], part of [okd]). *)
 From Coq Require Import List NArith ZArith Bool Lia.
 Import ListNotations.
 From LV Require Import Model.Base Model.Template Model.Eval Model.Derived Model.EvalRun Proofs.BaseProofs Proofs.EvalProofs Proofs.EvalInd Proofs.EvalUnfold Proofs.FingerprintProofs Proofs.TraceProofs.
-From LV Require Import Proofs.FrameProofs Proofs.FrameTheorem Proofs.RestrictProofs Proofs.SufficientProofs Proofs.CleanProofs Proofs.KeysPresent.
+From LV Require Import Proofs.FrameProofs Proofs.TemplateFrame Proofs.FrameTheorem Proofs.RestrictProofs Proofs.SufficientProofs Proofs.CleanProofs Proofs.KeysPresent.
 
 (** ** The memo store: find after store *)
 Lemma tok_eqb_true a b : tok_eqb a b = true -> a = b.
@@ -165,7 +166,8 @@ Section CacheSim.
     (forall v, resN (evalN b o) = Ok v -> has_lazy v = false) /\
     esw_stable u fuel b o.
   Definition okd (o : dict) : Prop :=
-    wf_dict o = true /\ effects_opt_off o = esw /\ forall c b, sites c = Some b -> site_clean b o.
+    wf_dict o = true /\ no_par o = true /\ effects_opt_off o = esw /\
+    forall c b, sites c = Some b -> site_clean b o.
 
   (** a correct entry: whoever may be served it would have computed it *)
   Definition Good (b : expr) (f : fp) (v : value) : Prop :=
@@ -419,7 +421,7 @@ Section CacheSim.
   Qed.
 
   (** ** the expressions covered, together with the set [D] of dictionaries that reach them:
-      every constructor except Map, Template nodes and AllOptions; a
+      every constructor except Map and AllOptions; a
       pre-set / default wrapper ([EWith]) hands its sub-expression the overlaid dictionaries; a
       cached expression must be in [frag] (the fragment of the frame theorem), every dictionary
       reaching the cache site must be [okd], and each cache id is used with the one expression
@@ -453,7 +455,10 @@ Section CacheSim.
         scoh f D /\
         (fix go (l : list expr) : Prop := match l with [] => True | x :: l' => scoh x D /\ go l' end) args /\
         (fix go (l : list expr) : Prop := match l with [] => True | x :: l' => scoh x D /\ go l' end) kwargs
-    | EMap _ _ | ETemplate _ _ | EAllOptions => False
+    | ETemplate _ ps =>
+        (fix go (l : list (N * expr)) : Prop :=
+           match l with [] => True | (_, x) :: l' => scoh x D /\ go l' end) ps
+    | EMap _ _ | EAllOptions => False
     end.
 
   Definition scoh_all (l : list expr) (D : dict -> Prop) : Prop :=
@@ -470,6 +475,15 @@ Section CacheSim.
   Proof.
     induction tbl as [|[v x] tbl IH]; intros H b Hb; [destruct Hb|].
     destruct H as [Hx Ht]. destruct Hb as [<-|Hb]; auto.
+  Qed.
+
+  Lemma coh_ps_In (ps : list (N * expr)) D :
+    (fix go (l : list (N * expr)) : Prop :=
+       match l with [] => True | (_, x) :: l' => scoh x D /\ go l' end) ps ->
+    forall pe, In pe ps -> scoh (snd pe) D.
+  Proof.
+    induction ps as [|[p x] ps IH]; intros H pe Hpe; [destruct Hpe|].
+    destruct H as [Hx Ht]. destruct Hpe as [<-|Hpe]; auto.
   Qed.
 
   Definition SimAll (e : expr) (D : dict -> Prop) : Prop :=
@@ -531,7 +545,8 @@ Section CacheSim.
     Proof. apply Sim_bind; [exact K1|]. intros ks. apply Sim_pure, Pure_fingerprint_of. Qed.
 
     Let Hw : wf_dict o = true := proj1 Ho.
-    Let Hcl : site_clean e o := proj2 (proj2 Ho) cid e Hsite.
+    Let Hnp : no_par o = true := proj1 (proj2 Ho).
+    Let Hcl : site_clean e o := proj2 (proj2 (proj2 Ho)) cid e Hsite.
 
     Definition errokE (c : cause) (ee : bool) : Prop := t = Err c true.
 
@@ -553,10 +568,10 @@ Section CacheSim.
 
     Lemma good_here f v : fingerprintN u fuel e o = Ok f -> t = Ok v -> Good e f v.
     Proof.
-      intros Hfp Ht o' Ho' Hfp'. destruct Ho' as (Hw' & He' & Hs').
+      intros Hfp Ht o' Ho' Hfp'. destruct Ho' as (Hw' & Hnp' & He' & Hs').
       destruct (Hs' cid e Hsite) as (Hc' & _ & _ & Hst'). destruct Hcl as (Hc0 & _ & _ & Hst0).
-      assert (Hsw : effects_opt_off o' = effects_opt_off o) by (rewrite He'; symmetry; exact (proj1 (proj2 Ho))).
-      unfold resN. rewrite (equal_fingerprint_equal_outcome u fuel e o o' f Hf Hw Hw' Hc0 Hc' Hst0 Hst' Hsw Hfp Hfp').
+      assert (Hsw : effects_opt_off o' = effects_opt_off o) by (rewrite He'; symmetry; exact (proj1 (proj2 (proj2 Ho)))).
+      unfold resN. rewrite (equal_fingerprint_equal_outcome u fuel e o o' f Hf Hw Hw' Hnp Hnp' Hc0 Hc' Hst0 Hst' Hsw Hfp Hfp').
       exact Ht.
     Qed.
 
@@ -1042,6 +1057,27 @@ Section CacheSim.
         apply Sim_bind; [apply Sim_unionM; intros x Hx; apply (HA x Hx o Ho)|]. intros b.
         apply Sim_bind; [apply Sim_unionM; intros x Hx; apply (HK x Hx o Ho)|]. intros c.
         leaf.
+    - (* ETemplate *)
+      assert (HA : forall pe, In pe ps -> SimAll (snd pe) D).
+      { intros pe Hpe. rewrite Forall_forall in H. apply (H pe Hpe D). apply (coh_ps_In ps D Hc pe Hpe). }
+      split; [|split; [|split]].
+      + unf eval_ETemplate. apply Sim_wrap. apply Sim_bind.
+        * unfold template_options. apply Sim_bind.
+          -- apply Sim_mapM. intros pe Hpe. apply Sim_bind; [apply (HA pe Hpe o Ho)|intros; leaf].
+          -- intros pvs. destruct (option_set _ []) as [pd|]; [|leaf]. destruct (negb _); leaf.
+        * intros d. apply Sim_pure. apply Pure_bind; [apply Pure_emit_reads|]. intros _.
+          apply Pure_bind; [apply Pure_of_rres|]. intros j.
+          destruct (to_str j); [apply Pure_ret|apply Pure_fail].
+      + unf validate_ETemplate. apply Sim_bind; [apply Sim_iterM; intros pe Hpe; apply (HA pe Hpe o Ho)|].
+        intros _. apply Sim_pure, Pure_iterM. intros k _.
+        apply Pure_bind; [apply Pure_rd|]. intros r.
+        destruct r as [raw| |]; [|apply Pure_fail|apply Pure_fail].
+        apply Pure_bind; [apply Pure_emit_reads|]. intros _.
+        apply Pure_bind; [apply Pure_wrap, Pure_of_rres|]. intros; apply Pure_ret.
+      + unf keys_ETemplate. apply Sim_bind; [apply Sim_unionM; intros pe Hpe; apply (HA pe Hpe o Ho)|].
+        intros a. apply Sim_bind; [apply Sim_pure, Pure_unionM; intros; apply Pure_ref_keys|]. intros; leaf.
+      + unf explain_ETemplate. apply Sim_bind; [apply Sim_unionM; intros pe Hpe; apply (HA pe Hpe o Ho)|].
+        intros a. apply Sim_bind; [apply Sim_pure, Pure_unionM; intros; apply Pure_ref_keys|]. intros; leaf.
     - (* EComp *)
       destruct Hc as [Ce Cf].
       destruct (IHe D Ce o Ho) as (E1 & V1 & K1 & X1).
